@@ -160,6 +160,7 @@ fn main() {
                 let label = format!("{}-{}-{}", args.get("profile").unwrap_or("core"), seed, k);
                 let _ = writeln!(w.out, "seq {label} seed={s} maxops={max_ops}");
                 let mut g = Gen::new(s, profile, max_ops);
+                g.decimal = args.get("profile") == Some("decimal");
                 w.run(&mut g);
                 finish_seq(&mut w, &label, &mut nseq);
             }
